@@ -254,7 +254,8 @@ def mutate(r, s):
     elif m == 10:
         j = s.find(b"\r\n")
         if j >= 0:
-            s[j:j] = b"\r\nno colon here"
+            s[j:j] = r.choice([b"\r\nno colon here", b"\r\nno colon here", b"\r\nContent-Length: " + b"0" * 4300 + b"3",
+                               b"\r\nContent-Length: " + b"0" * 4297 + b"003"])
     else:
         j = s.find(b"\r\n")
         if j >= 0:
@@ -272,6 +273,10 @@ def prim_cases(tier):
     for extra in (b"0x_1f", b"0X1_f", b"0x__1", b" -0x10 ", b"0x", b"007", b"1_000_000", b"\x1f12\x1f", b"+ 1", b"00_0", b"0b1", b"0o7", b"FFFFFFFFFFFFFFFFFFFF",
                   b"123456789012345678901234567890", b"-x-ab cd", b"conTENT-length", b"x1a'bc", b"a_b"):
         yield extra
+    # CPython's 4300-digit limit of int() for base 10 (none for base 16)
+    for big in (b"9" * 4300, b"9" * 4301, b"0" * 4301, b"0" * 4300 + b"_7", b" -" + b"1" * 4300 + b" ", b"+" + b"1" * 4301,
+                b"_".join([b"12"] * 2150), b"_".join([b"12"] * 2151), b"f" * 4400):
+        yield big
 
 
 def py_int(b, mode):
@@ -344,7 +349,8 @@ def check_wires(drv, msgs, add, tap=None):
 
 # ---------------------------------------------------------------- kernel cross-check of the extracted driver
 XC_PRELUDE = """From Coq Require Import List NArith ZArith Bool.
-From AHK Require Import Lib.ByteStr Model.Http Model.HttpWire.
+From AHK Require Import Lib.ByteStr Model.Http Model.HttpWire Model.HttpSecure.
+From AHK Require Model.Frame.
 Import ListNotations.
 Definition zb (b : bool) : Z := if b then 1%Z else 0%Z.
 Definition enc (b : bytes) : list Z := Z.of_nat (length b) :: map Z.of_N b.
@@ -377,6 +383,27 @@ Definition show_cuts (two : bool) (s : bytes) : list Z :=
           else [])) (seq 1 (n - 1)) in
   Z.of_nat (length (filter (fun b => b) flags)) :: Z.of_nat (length flags) :: whole.
 Definition show_wire (w : wire) : list Z := zb (wf_wire w) :: enc (render w) ++ show_msg (interp w).
+(* the secure requests: open = the finite table of sealed frames (ocaml/drv_c07.ml `table`) *)
+Fixpoint tbl_open (t : list (bytes * bytes * bytes * bytes)) (no aad ct : bytes) : option bytes :=
+  match t with
+  | [] => None
+  | (n, a, c, p) :: r => if beq n no && beq a aad && beq c ct then Some p else tbl_open r no aad ct
+  end.
+Definition show_sres (x : sstate * list msg) : list Z :=
+  (match fst (fst x) with Frame.Dead => [0%Z] | Frame.Live b c => [1%Z; Z.of_nat (length b); Z.of_N c] end)
+  ++ show_res (snd (fst x), snd x).
+Fixpoint sfeed_counts (opn : bytes -> bytes -> bytes -> option bytes) (s : sstate) (segs : list bytes) : list Z :=
+  match segs with
+  | [] => []
+  | d :: r => let x := secure_feed opn s d in Z.of_nat (length (snd x)) :: sfeed_counts opn (fst x) r
+  end.
+Definition show_sfeed opn ctr segs : list Z :=
+  show_sres (secure_feeds opn (sinit ctr) segs) ++ Z.of_nat (length segs) :: sfeed_counts opn (sinit ctr) segs.
+Definition show_scuts1 opn ctr (s : bytes) : list Z :=
+  let whole := show_sres (secure_feeds opn (sinit ctr) [s]) in
+  let flags := map (fun i => negb (zl_eqb (show_sres (secure_feeds opn (sinit ctr) [firstn i s; skipn i s])) whole))
+                   (seq 1 (length s - 1)) in
+  Z.of_nat (length (filter (fun b => b) flags)) :: Z.of_nat (length flags) :: whole.
 """
 
 
@@ -407,6 +434,13 @@ def coq_request(req):
         return f"enc (title {coq_bytes(t[1])})"
     if k in ("strips", "stripb"):
         return f"enc (strip {'ws_s' if k == 'strips' else 'ws_b'} {coq_bytes(t[1])})"
+    if k in ("sfeed", "scuts1"):
+        n = int(t[2])
+        ents = "[" + "; ".join("(%s, %s, %s, %s)" % tuple(coq_bytes(x) for x in e.split(":")) for e in t[3:3 + n]) + "]"
+        rest = t[3 + n:]
+        if k == "sfeed":
+            return f"show_sfeed (tbl_open {ents}) {t[1]}%N [" + "; ".join(coq_bytes(p) for p in rest) + "]"
+        return f"show_scuts1 (tbl_open {ents}) {t[1]}%N {coq_bytes(rest[0])}"
     if k == "wire":
         f = t[5].split(":")
         fr = "FNone" if f[0] == "N" else f"(FFixed {coq_bytes(f[1])})" if f[0] == "F" else f"(FChunked {coq_pairs(f[1])} {coq_bytes(f[2])})"
@@ -459,6 +493,18 @@ def z_answer(req, ans):
             return z_enc(ans)
         if k == "wire":
             return [{"true": 1, "false": 0}[t[0]]] + z_enc(t[1]) + z_msg(t[2])
+        if k in ("sfeed", "scuts1"):
+            head = []
+            if k == "scuts1":
+                head, t = [int(t[0]), int(t[1])], t[2:]
+            counts = None
+            if "#" in t:
+                i = t.index("#")
+                counts = [int(x) for x in t[i + 1].split(",")] if len(t) > i + 1 and t[i + 1] else []
+                t = t[:i]
+            rs = [0] if t[0] == "dead" else [1, int(t[0].split(":")[1]), int(t[0].split(":")[2])]
+            out = head + rs + z_res(t[1:])
+            return out + ([len(counts)] + counts if counts is not None else [])
     except (KeyError, ValueError, IndexError, TypeError):
         return None
     return None
@@ -491,8 +537,12 @@ def xc_sample(streams):
     for mode in ("int10b", "int10s", "int16", "title", "strips", "stripb"):
         # reversed: the hand-written corner cases (0x_1f, 1_000_000, 30-digit numbers, ...) are at the end of the stream
         sample += xc_pick(streams.get(mode, [])[::-1], 2, lambda q, a: a == "none" if mode.startswith("int") else a == q.split(" ")[1],
-                          lambda q, a: len(q.split(" ")[1]) >= 6)
-    return sample[:30]
+                          lambda q, a: 6 <= len(q.split(" ")[1]) <= 400)
+    big = [(q, a) for q, a in streams.get("int10b", []) if len(q) > 8000][:1]               # the 4300-digit limit of int()
+    sample = sample[:30] + big
+    sample += xc_pick(streams.get("sfeed", []), 3, lambda q, a: a.split(" ")[0].split(":")[0] + a.split(" ")[1], lambda q, a: len(q) <= 3000)
+    sample += sorted(streams.get("scuts1", []), key=lambda p: len(p[0]))[:1]
+    return sample
 
 
 def vm_crosscheck(ctx, sample):
@@ -704,6 +754,10 @@ async def _run(ctx):
                 if got != model:
                     add("malformed:model-mismatch:cut", f"malformed/unusual stream: implementation {got[:100]} != model {model[:100]}", False,
                         stream=hx(s), cuts=list(cuts), impl=got, model=model)
+
+    # ---- E: the same parser behind the encrypted session (real SecureHomeKitProtocol, real cipher): harness/c07sec.py
+    from c07sec import run_secure
+    run_secure(ctx, drv, cov, add, xc, canon_msgs, catalogue, rand_msg, mutate, par_batch)
 
     # ---- D: the model's int()/title()/strip() against CPython
     prims = list(prim_cases(tier))
